@@ -176,6 +176,28 @@ class Fn:
         self._rel = rel
         return rel
 
+    def return_locals(self):
+        """Locals whose value becomes the return value by plain moves (`_0 = move _x`), including _0 itself: where a helper was inlined, its own
+        return place is such a local."""
+        if getattr(self, "_retl", None) is None:
+            r = {0}
+            changed = True
+            while changed:
+                changed = False
+                for bl in self.blocks:
+                    for st in bl.stmts:
+                        if st["k"] == "assign" and not st["dst"].get("p") and st["dst"]["l"] in r and st["rv"]["k"] == "use":
+                            o = st["rv"]["op"].get("mv") or st["rv"]["op"].get("cp")
+                            if o and not o.get("p") and o["l"] not in r and self.locals[o["l"]]["ty"] == self.locals[0]["ty"]:
+                                r.add(o["l"])
+                                changed = True
+            self._retl = r
+        return self._retl
+
+    def is_return_assign(self, st, vname):
+        """statement `ret = Variant(..)` where ret is the return place or a local moved into it"""
+        return st["k"] == "assign" and not st["dst"].get("p") and st["dst"]["l"] in self.return_locals() and st["rv"]["k"] == "agg" and st["rv"].get("vname") == vname
+
     # ---- names
     def local_name(self, l):
         return self.locals[l].get("name")
